@@ -8,7 +8,8 @@ F-semantics contracts (bit-exact, all coefficient contents incl. NaN), per group
              on corresponding paths (=> bit-identical, stronger than 4 ulp).
   sub-views  so2() so3() r2() r3() r3_v() r3_p() r1_t() part<i>(): assignment through the view writes exactly the
              viewed sub-range with the assigned coefficients and leaves every other coefficient's cell untouched.
-  copies     assignment between storage kinds copies coefficient k to k; cast<S>() converts coefficient k to k.
+  copies     assignment between storage kinds copies coefficient k to k; cast<S>() converts coefficient k to k and returns a value
+             (not an alias of the viewed buffer).
   aliasing   a *= a and a = a.inverse() on one buffer equal the value-semantics result.
 """
 from irsx import dag, engine, diff as dd, symex
@@ -169,6 +170,28 @@ def run_group(gname, s, tier="quick", seed=0, canary=False):
                         "coefficient k copied to k" if ok else "coefficients reordered or changed: %s" % [dag.show(x, 2) for x in pv.out("o")],
                         extra=None if ok else dict(confirmed=False))
         guarded(res, "%s::%s/verbatim" % (tag, name), go3)
+
+    # cast<S>() returns a value: it is neither an alias of the viewed buffer (writes through it stay out of the buffer) nor a view that
+    # follows later writes to the buffer
+    for name in ("cast_indep", "cast_snapshot"):
+        def go4(name=name):
+            bufs = [("a", G.rep, s), ("b", G.rep, s), ("o", G.rep, s)]
+            a, b = vars_("a", G.rep, s), vars_("b", G.rep, s)
+            for k, pv in enumerate(xt.run(p + "_" + name, bufs, realmode=False)):
+                oid = "%s::%s/cast-result-is-a-value/p%d" % (tag, name, k)
+                if pv.status != "ok":
+                    res.add(oid, "refuted", "struct", 0.0, "%s: %s" % (pv.status, pv.detail), extra=dict(confirmed=False))
+                    continue
+                if name == "cast_indep":
+                    ok = not pv.written.get("a") and all(x is y for x, y in zip(pv.out("o"), b))
+                    why = "the viewed buffer is not written, the assigned value is returned"
+                else:
+                    ok = all(x is y for x, y in zip(pv.out("o"), a)) and all(x is y for x, y in zip(pv.out("a"), b))
+                    why = "the cast result keeps the coefficients read at the time of the call"
+                res.add(oid, "proved" if ok else "refuted", "struct", 0.0, why if ok else
+                        "cast<S>() result aliases the viewed buffer: written(a) = %s, o = %s" % (sorted(pv.written.get("a", ())), [dag.show(x, 2) for x in pv.out("o")]),
+                        extra=None if ok else dict(confirmed=False))
+        guarded(res, "%s::%s/cast-result-is-a-value" % (tag, name), go4)
     return res
 
 
